@@ -69,7 +69,9 @@ def _number(spec):
                         a[0] = 'firewait'
                     if a[0] == 'latewait':
                         a[5] = False
-            if s['end'][0] == 'ret':
+            if s['end'][0] == 'stop' and _is_gen(s):
+                s['end'][0] = 'ret'      # a generator handler runs after the dispatch: it cannot stop() it any more
+            if s['end'][0] in ('ret', 'stop'):
                 s['end'][1] = tok(s['end'][1])
 
     _walk(spec['roots'], f)
@@ -90,7 +92,7 @@ def _ev_strategy(depth):
         return st.fixed_dictionaries({
             'actions': st.lists(st.one_of(*acts), max_size=3),
             'end': st.one_of(st.tuples(st.just('ret'), VAL).map(list), st.tuples(st.just('ret'), VAL).map(list),
-                             st.just(['raise'])),
+                             st.just(['raise']), st.tuples(st.just('stop'), VAL).map(list)),
         })
 
     def event_s(children):
@@ -230,12 +232,14 @@ class C06(Prop):
                     log.append(('hend', eid, slot, 'raise'))
                     raise Boom((eid, slot))
 
-            def body_plain(self, inst):
+            def body_plain(self, event, inst):
                 eid = G(es['id'], inst)
                 for a in script['actions']:
                     ce = evobj[G(a[1]['id'], inst)] = make(a[1], inst)
                     self.fire(ce)
-                if script['end'][0] == 'ret':
+                if script['end'][0] in ('ret', 'stop'):
+                    if script['end'][0] == 'stop':
+                        event.stop()    # lower-priority handlers of this event are skipped
                     log.append(('ret', eid, slot, tag(script['end'][1], inst)))
                     log.append(('hend', eid, slot, 'ok'))
                     return tag(script['end'][1], inst)
@@ -245,9 +249,9 @@ class C06(Prop):
             gen = _is_gen(script)
 
             @H('e%d' % es['id'], priority=20 - 10 * slot)
-            def f(self, inst):
+            def f(self, event, inst):
                 log.append(('hstart', G(es['id'], inst), slot))
-                return body_gen(self, inst) if gen else body_plain(self, inst)
+                return body_gen(self, inst) if gen else body_plain(self, event, inst)
             f.__name__ = 'h%d_%d' % (es['id'], slot)
             return f
 
@@ -349,14 +353,14 @@ class C06(Prop):
                 if m[2] - it0 < timeout:
                     return bad('timeout-early', 'TimeoutError on %s after %d iterations, timeout was %d' % (N(site), m[2] - it0, timeout))
                 if m[2] - it0 <= timeout + 2:
-                    ends = [hend.get((site, s)) for s in range(len(ces['handlers']))]
+                    ends = [hend.get((site, s)) for s in _should(ces)]
                     if all(e is not None for e in ends):
                         raced = True
             else:
                 # callee: all handlers started and finished before the resume
-                if sorted(started.get(site, [])) != list(range(len(ces['handlers']))):
+                if sorted(started.get(site, [])) != _should(ces):
                     return bad('resumed-before-dispatch', 'caller resumed on %s before all its handlers ran' % N(site))
-                for s in range(len(ces['handlers'])):
+                for s in _should(ces):
                     e = hend.get((site, s))
                     if e is None or e[0] > j:
                         return bad('resumed-early', 'caller resumed on %s before its handler %d finished' % (N(site), s))
@@ -379,9 +383,9 @@ class C06(Prop):
             if eid not in final and eid not in started:
                 continue  # its call site was never reached (caller raised / timed out before)
             hs = es['handlers']
-            if sorted(started.get(eid, [])) != list(range(len(hs))):
+            if sorted(started.get(eid, [])) != _should(es):
                 return bad('handler-skipped', 'event %s: handlers started %r' % (N(eid), started.get(eid)))
-            for s in range(len(hs)):
+            for s in _should(es):
                 if (eid, s) not in hend:
                     return bad('handler-unfinished', 'event %s handler %d never finished (suspended for ever?)' % (N(eid), s))
             exp = self._expected(log, eid, es)
@@ -396,7 +400,7 @@ class C06(Prop):
                 return bad('success-count', 'event %s: %d success events, raised=%r' % (N(eid), ns, exp['errors']))
             if ns:
                 ks = [k for k, l in enumerate(log) if l[0] == 'success' and l[1] == eid][0]
-                if any(hend[(eid, s)][0] > ks for s in range(len(hs))):
+                if any(hend[(eid, s)][0] > ks for s in _should(es)):
                     return bad('success-early', 'event %s: success before its last handler finished' % N(eid))
 
         # ---- residue
@@ -447,6 +451,16 @@ class C06(Prop):
 
 
 PROP = C06()
+
+
+def _should(es):
+    """Slots of the handlers that must run: all, up to and including the first plain handler that stop()s the event."""
+    out = []
+    for i, sc in enumerate(es['handlers']):
+        out.append(i)
+        if sc['end'][0] == 'stop' and not _is_gen(sc):
+            break
+    return out
 
 
 def _ms(items):
